@@ -73,6 +73,26 @@ def c04_s(draw, pid, tier, opts=None):
             base["events"].insert(pos, ["reload", [list(x) for x in svcs]])
         n = len(base["events"])
         stray["pos"] = draw(st.integers(0, n))
+    # scenario "table slot reuse": a service is dropped by one reload while clients may still wait for it,
+    # a later reload adds a brand-new service; the stray line comes from that new service
+    if draw(st.integers(0, 7)) == 0 and base["conf"]["services"] and not any(e[0] == "reload" for e in base["events"]):
+        svcs = [list(x) for x in base["conf"]["services"]]
+        drop_i = draw(st.integers(0, len(svcs) - 1))
+        after_drop = [x for i, x in enumerate(svcs) if i != drop_i]
+        free = [x for x in ep.SVC_POOL if x not in [y[0] for y in svcs]]
+        if free:
+            newname = draw(st.sampled_from(free))
+            after_add = after_drop + [[newname, draw(st.sampled_from(proto.PROTOCOLS))]]
+            ne = len(base["events"])
+            p1 = draw(st.integers(1, ne))
+            base["events"].insert(p1, ["reload", after_drop])
+            p2 = draw(st.integers(p1 + 1, ne + 1))
+            base["events"].insert(p2, ["reload", after_add])
+            stray["kind"] = "not_awaited"
+            stray["svc_name"] = newname
+            stray["pos"] = draw(st.integers(p2 + 1, len(base["events"])))
+            base["stray"] = stray
+            return base
     # "shadow" an existing reply: same client and service, inserted right before it, so that the
     # stray line arrives while that service really owes an answer
     xs = [j for j, e in enumerate(base["events"]) if e[0] == "X" and e[4] == "cur"]
@@ -405,8 +425,8 @@ def c09_s(draw, pid, tier, opts=None):
             e[2] = draw(address_s())
             e[3] = draw(st.sampled_from([0, 1, 65535, 6667])) if draw(st.booleans()) else draw(st.integers(0, 65535))
     # an occasional reply text far longer than a protocol line (the sender's buffer is 1024 bytes)
-    xs = [e for e in events if e[0] == "X" and " " in e[3]]
-    if xs and draw(st.integers(0, 5)) == 0:
+    xs = [e for e in events if e[0] == "X" and " " in e[3] and e[4] == "cur"]
+    if xs and draw(st.integers(0, 2)) == 0:
         e = draw(st.sampled_from(xs))
         e[3] = e[3].split(" ", 1)[0] + " " + draw(st.text(ep.TEXT, min_size=1, max_size=3)) * draw(st.sampled_from([300, 400, 700, 1200]))
     noisy = ["-1 ? bogus", "-1 ? config", "-1 N garbage", "-1 d", "-1 U a :b", "-1 H", "-1 T", "-1 D", "-1 P :x", "-1 n x", "-1 u x",
